@@ -139,6 +139,15 @@ func init() {
 		opGen{"add-goit-path", always, func(g *G) Step {
 			return goit("add", g.Pick([]string{".goit", ".goit/HEAD", ".goit/config", ".goit/objects", ".goit/index", ".goit/refs"}, "goitPath"))
 		}},
+		opGen{"write-near-goit", always, func(g *G) Step {
+			// names that only look like the metadata directory: a backslash is an ordinary byte of a file name,
+			// `.goitx/`, `x.goit/` and `.goit-old` are ordinary directories and files
+			p := g.Pick([]string{`.goit\HEAD`, `.goit\index`, `.goit\config`, `.goit\refs\heads\main`, ".goitx/HEAD", ".goit-old", "x.goit/HEAD", ".goit.tmp", ".goit /HEAD", "d/.goitx"}, "nearGoit")
+			if !g.pathUsable(p) {
+				p = g.NewPath()
+			}
+			return Step{Op: "write", Path: p, Data: g.SmallContent()}
+		}},
 		opGen{"write-ignored", always, func(g *G) Step {
 			// a file that a generated .goitignore would exclude: under an ignorable directory or with an ignorable extension
 			dir := g.Pick(g.knownDirs(), "dir")
@@ -188,5 +197,5 @@ func init() {
 	)
 }
 
-var ignoreWeights = Weights{"write-new": 14, "write-ignored": 16, "modify": 6, "remove-file": 3, "add": 8, "add-dot": 16, "add-dir": 14, "add-goit-path": 4, "add-abs": 5, "ignore-more": 3, "write-ext-dir": 4, "dir2file": 3,
+var ignoreWeights = Weights{"write-new": 14, "write-ignored": 16, "modify": 6, "remove-file": 3, "add": 8, "add-dot": 16, "add-dir": 14, "add-goit-path": 4, "write-near-goit": 5, "add-abs": 5, "ignore-more": 3, "write-ext-dir": 4, "dir2file": 3,
 	"status": 10, "commit": 8, "reset-hard-0": 4, "restore-dir": 4, "rm": 2}
